@@ -21,7 +21,7 @@ type MapV struct {
 }
 
 func (x *Exec) safety(e *Env, kind string, at ast.Node, cond *Term) {
-	if e.contract || x.inGlobalInit > 0 {
+	if e.contract || x.inGlobalInit > 0 || x.quiet > 0 {
 		return
 	}
 	if cond.IsTrue() {
@@ -912,6 +912,10 @@ func (x *Exec) defineRec(e *Env, sf *SpecFn, spkg *packages.Package, name string
 	fmt.Fprintf(&sb, ") %s %s)", rs, bs.T)
 	x.defs[name] = sb.String()
 	x.defOrder = append(x.defOrder, name)
+	if x.defTerms == nil {
+		x.defTerms = map[string]*Term{}
+	}
+	x.defTerms[name] = bs.T
 }
 
 // ---------------------------------------------------------------- function calls
@@ -1247,6 +1251,10 @@ func (x *Exec) havocLike(e *Env, cell Value, base string) Value {
 		return ErrV{Nil: x.fresh(base+".nil", BoolS), Kind: x.fresh(base+".kind", IntS), Type: x.fresh(base+".type", IntS), Off: x.fresh(base+".off", IntS)}
 	case SliceV:
 		return x.havoc(e, c.Typ, base)
+	case PtrV:
+		if c.Typ != nil {
+			return x.havoc(e, c.Typ, base)
+		}
 	}
 	unsupported("havoc of %T", cell)
 	return nil
@@ -1417,15 +1425,24 @@ func mentionsApp(t *Term, name string, memo map[*Term]bool) bool {
 }
 
 func mentionsVar(t *Term, name string) bool {
-	if t.Op == "var" && t.Name == name {
-		return true
-	}
-	for _, a := range t.Args {
-		if mentionsVar(a, name) {
+	seen := map[*Term]bool{}
+	var walk func(t *Term) bool
+	walk = func(t *Term) bool {
+		if seen[t] {
+			return false
+		}
+		seen[t] = true
+		if t.Op == "var" && t.Name == name {
 			return true
 		}
+		for _, a := range t.Args {
+			if walk(a) {
+				return true
+			}
+		}
+		return false
 	}
-	return false
+	return walk(t)
 }
 
 func concreteTypeOf(v Value) types.Type {
